@@ -122,7 +122,7 @@ CONF = {
         "assumptions": GO_ASSUME + SCHED_ASSUME + ["linearizability is decided by porcupine v1.3.0 on the recorded invoke/return history per bar (histories capped at 400 operations, 8 s timeout -> inconclusive)", "operations that reach a bar after its terminal event may be applied or dropped (both legal)", "the Go race detector only reports races on executed accesses; a report counts when the access sites of both goroutines are library code"],
         "crash_is_violation": True,
         "tiers": tiers(8, 600, 16, 12000, q_race_shards=6, q_race_checks=150, t_race_shards=8, t_race_checks=3000, race_gomaxprocs=4),
-        "require_classes": ["refresh:autort", "refresh:autoinj", "refresh:manual", "refresh:none", "shared-bar>=3clients", "quiescent-sum", "getter-after-exit-with-later-render", "cancelled", "parallel-adds-shared-style"],
+        "require_classes": ["refresh:autort", "refresh:autoinj", "refresh:manual", "refresh:none", "shared-bar>=3clients", "quiescent-sum", "getter-after-exit-with-later-render", "cancelled", "parallel-adds-shared-style", "successor-added-by-concurrent-client"],
     },
     "C03": {
         "rule": "cases = sequential programs on auto-refreshing containers (render requests injected by the harness racing with the library's early refresh, or a real 1-3 ms ticker): 1-6 bars with on-complete/on-abort fillers and decorator wrapper stacks, removal on completion, aborts with and without drop, pop mode, queued successors, post-terminal updates, optional cancel/Shutdown; non-trivial = >=2 bars, >=1 completed bar in the last frame and >=1 aborted, removed, popped or replaced bar, and no render-cycle step after the last update (the last frame has to come from early refresh or the final render); distinct by FNV-64 of the scenario JSON",
